@@ -103,6 +103,12 @@ def pbsVnodes (chunks : List (List (Nat × Nat))) : Except Err (List Nat × Nat)
   | []  => .error .value
   | _   => .error .runtime
 
+/-- CCM: of the `nodelist*` files in `~/.crayccm` the one that was WRITTEN last (largest modification
+    time) is the node file of this job; files are (mtime, lines) -/
+def newestFile : List (Nat × List Line) → Nat × List Line
+  | []      => (0, [])
+  | f :: fs => if (newestFile fs).1 < f.1 then f else if fs = [] then f else newestFile fs
+
 /-- Slurm: the configured `gpus_per_node` if there is one, else what the batch environment reports -/
 def envGpn (c : Cfg) : Nat :=
   match c.envGpus with
